@@ -27,37 +27,55 @@ MANIFEST = {
     "text": "Lean 4 theorems for every mask, ACS mask, protected region, requested count and every candidate stream / "
             "choice list: Gaussian, uniform and half (4 directions, on exact or float32 coordinates) splits are partitions "
             "(union = mask, intersection empty, resp. = ACS with keep_acs), target inside the free cells, protected cells stay "
-            "in the input, target size = min(requested, #free-1)+1 (Gaussian) / floor count (uniform), the float32 count "
-            "int(ceil(fl(S)*fl(rho))) equals the exact ceiling unless S*p/q is an integer (then +1 at most; floor -1 at most), "
-            "split k-spaces = mask restrictions summing to the masked k-space, seeded output independent of ambient RNG "
-            "state, kernel result invariant under repeated candidates, termination iff requested+1 <= #free on every prefix "
-            "containing each free cell once (hence always after the cap; pre-repair divergence kept as witness); SSL branch: "
-            "key plumbing of build_mri_transforms' tail against the keys the SSL engines read, and the k-space loss sees the "
-            "prediction only on held-out target cells. Tied to the code by translated loop guard / acceptance test / slice "
-            "bounds / count, cap, seed expressions / diagonal predicates / key tables (bridge lemmas) and by exact "
-            "differential replay on the reconstructed libc stream, the recorded rng.choice draws, torch's float32 product and "
-            "the real engines' training step.",
-    "note": "Trusted: Lean kernel (+propext, Classical.choice, Quot.sound), the AST/.pyx translator, libc rand and numpy "
-            "RandomState as deterministic functions of their seed, torch boolean/slice semantics as encoded by zipWith / "
-            "pySlice, torch.linspace values (carried exactly as dyadic integers), the harness's replay of the libc stream "
-            "(C helper cross-checked against a ctypes replay). Termination is a theorem only for streams that contain every "
-            "free cell; that libc's rand()-driven Box-Muller stream does so is a probabilistic fact (each free cell has "
-            "positive probability per draw, so a finite hitting time with probability 1, but no deterministic bound): the "
-            "check measures the candidates the real stream needs on the tightest requests and flags more than 1e7 as "
-            "`gaussian-split-slow`. float32 count theorem needs S*p < 2^22 and normal-range binary32 (no overflow/subnormals).",
-    "technique": "Lean 4 proof (list induction, omega, counting, Mathlib field arithmetic for the binary32 error bound) + "
-                 "AST/.pyx translation bridge + differential correspondence with reconstructed RNG streams under a "
-                 "subprocess watchdog",
+            "in the input, target size = min(requested, #free-1)+1 (Gaussian) / floor count (uniform); end to end with the "
+            "float32 product in place (no count is an input): Gaussian target = ceil(S*rho)+1 or +2 cells when free, all free "
+            "cells otherwise, uniform target = floor(F*rho) or one less (S*p < 2^22); constructor admits exactly 0 < rho < 1 and "
+            "then 1 <= ceil(S*rho) <= S, 0 <= floor < S; split k-spaces = mask restrictions summing to the masked k-space; "
+            "seeded output independent of ambient RNG state AND of the interpreter process (seed derivation reads only the "
+            "characters of file name + slice; salted-hash witness); call histories on one splitter object: the object keeps "
+            "nothing between calls (translated table of every write to self / class / module state, decided predicate), hence "
+            "every history = map of the single-call split; a memo of split results is invisible iff its key determines the "
+            "split (LRU bound arbitrary), stale-answer witness for a (file, slice) key; kernel result invariant under repeated "
+            "candidates, termination iff requested+1 <= #free on every prefix containing each free cell once (hence always "
+            "after the cap; pre-repair divergence kept as witness); SSL branch: key plumbing of build_mri_transforms' tail "
+            "against the keys ALL EIGHT readers under direct/nn use (SSL/JSSL base engines, vSHARP SSL/JSSL re-implementations "
+            "of the training step, U-Net / VarNet SSL/JSSL forward functions: split input exactly when training (and is_ssl for "
+            "joint engines), projection on the target mask), and the k-space loss sees the prediction only on held-out target "
+            "cells. Tied to the code by translated loop guard / acceptance test / slice bounds / count, cap, seed, ratio-guard "
+            "expressions / diagonal predicates / key, state-write, seed-callable and engine-site tables (bridge lemmas) and by "
+            "exact differential replay on the reconstructed libc stream, the recorded rng.choice draws, torch's float32 product, "
+            "call histories on persistent objects (driver op `hist` = runHist), two interpreters with different "
+            "PYTHONHASHSEED, and the real engines' training step / forward functions.",
+    "note": "Trusted: Lean kernel (+propext, Classical.choice, Quot.sound), the AST/.pyx translator (incl. the syntactic scan "
+            "for state writes: assignments / subscripts / mutating method calls / setattr / global / memoising decorators / "
+            "mutable defaults rooted at self, a class or a module name), libc rand and numpy RandomState as deterministic "
+            "functions of their seed, torch boolean/slice semantics as encoded by zipWith / pySlice, torch.linspace values "
+            "(carried exactly as dyadic integers), the harness's replay of the libc stream (C helper cross-checked against a "
+            "ctypes replay). Termination is a theorem only for streams that contain every free cell; that libc's rand()-driven "
+            "Box-Muller stream does so is a probabilistic fact: the check measures the candidates the real stream needs on the "
+            "tightest requests and flags more than 1e7 as `gaussian-split-slow`. float32 count theorems need S*p < 2^22 and "
+            "normal-range binary32. Process independence is proved for the model's derivation and tied by the table of "
+            "callables the source derivation uses (allow-list) + the two-interpreter run; the vSHARP engines are run with "
+            "identity operators and a unit sensitivity map in coil 0 (exact integers).",
+    "technique": "Lean 4 proof (list induction, omega, counting, cache invariant for the memo, Mathlib field arithmetic for "
+                 "the binary32 error bound) + AST/.pyx translation bridge + differential correspondence with reconstructed RNG "
+                 "streams, call histories and a second interpreter process under a subprocess watchdog",
 }
 TRUSTED = [
     "Lean 4.33 kernel; axioms ⊆ {propext, Classical.choice, Quot.sound}",
-    "harness/translate + recipes/c11.py (Python AST / .pyx front-end -> Lean) for loop guard, acceptance test, slice bounds, "
-    "count / cap / seed expressions, diagonal predicates, mask algebra, SSL tail and engine key tables",
+    "harness/translate + recipes/c11.py, c11_state.py (Python AST / .pyx front-end -> Lean) for loop guard, acceptance test, "
+    "slice bounds, count / cap / seed / ratio-guard expressions, diagonal predicates, mask algebra, SSL tail and engine key "
+    "tables, state-write table (syntactic scan), seed-callable table, engine-site table",
     "libc rand()/srand() reproduced through ctypes and a small C helper (cross-checked against each other on every run); "
     "Box–Muller with sqrt/log/cos/sin equals the C kernel bit for bit",
     "numpy RandomState.choice(replace=False, p) returns distinct indices of non-zero probability (checked on every draw)",
     "torch boolean ops / slice assignment / apply_mask / default_collate as encoded by zipWith / pySlice / applyMaskK "
     "(validated by correspondence); torch.linspace float32 values taken from torch and carried exactly",
+    "two worker interpreters started with PYTHONHASHSEED 101 / 2024 stand for 'different processes' (restart, spawned "
+    "data-loader workers, separate inference run); their hash salts are probed to differ",
+    "object / class / module state is observed by a snapshot of instance dicts, class attributes of /repo classes in the MRO, "
+    "module-level containers and lru caches of direct.ssl.ssl / mask_fillers (reported, not judged); the verdict is always "
+    "on the returned masks against a fresh object",
 ]
 ASSUMPTIONS = [
     "float32 sums xv ± yv keep the sign of the exact sum of the float32 coordinates (round-to-nearest, no underflow)",
@@ -66,12 +84,17 @@ ASSUMPTIONS = [
     "termination is proved for candidate streams that contain every free cell; that libc's stream does is probabilistic "
     "(measured, not proved)",
     "k-space entries are small integers (exact in float32)",
+    "str(filename) / str(slice_no) are the same strings in every process (pathlib / int formatting is not salted)",
 ]
 RULE = ("masks: line / 2-D random / sparse / nearly empty / full, 6..40 rows and columns, odd/even, non-square; ratios "
-        "0.05..0.95 (also ratio lists); protected regions (0,0)..larger than the mask; keep_acs on/off; use_seed on/off; "
-        "split_method and forward (batch 1..3) and the pipeline stage. non-trivial = at least 2 free cells and a stress "
-        "feature (non-empty protected region / keep_acs / capped request / both parts non-empty); distinct = distinct "
-        "case description")
+        "0.05..0.95 (also ratio lists; 0, 1 and out-of-range ratios at the constructor); protected regions (0,0)..larger than "
+        "the mask, odd sizes; keep_acs on/off incl. empty ACS, ACS = whole mask, ACS outside the mask; use_seed on/off; "
+        "kspace_key masked_kspace / kspace; split_method and forward (batch 1..3), the pipeline stage, call histories of "
+        "3..8 calls on 1..3 persistent objects (same file+slice with other masks / ACS masks, other files with the same mask, "
+        "repeats, batched vs single, interleaved classes, 2-D / 3-D / mixed), the same sample in two interpreter processes, "
+        "SSL / JSSL / vSHARP engine steps and the engines' forward functions. non-trivial = at least 2 free cells and a "
+        "stress feature (non-empty protected region / keep_acs / capped request / both parts non-empty), a history of >= 2 "
+        "calls; distinct = distinct case description")
 
 # findings of this check on the current tree that the lead has not yet ruled on (still reported as VIOLATION)
 PENDING_FINDINGS: list[str] = []
@@ -196,7 +219,11 @@ def _worker_main():  # pragma: no cover - runs in the subprocess
                     sample["acs_mask"] = acss[0]
             out = call(sample)
             im, tm = out["input_sampling_mask"], out["target_sampling_mask"]
-            ik, tk = out["input_" + case.get("kkey", "masked_kspace")], out["target_" + case.get("kkey", "masked_kspace")]
+            kk_ = case.get("kkey", "masked_kspace")
+            for need_ in ("input_" + kk_, "target_" + kk_):
+                if need_ not in out:
+                    raise KeyError(f"forward (kspace_key={kk_!r}) did not write {need_!r}; keys: {sorted(map(skey, out))}")
+            ik, tk = out["input_" + kk_], out["target_" + kk_]
             if case["level"] == "pipeline":
                 im, tm, ik, tk = im[None], tm[None], ik[None], tk[None]
             res["shape"] = [list(im.shape), list(tm.shape), list(ik.shape), list(tk.shape)]
@@ -515,6 +542,9 @@ def _worker_main():  # pragma: no cover - runs in the subprocess
         try:
             out = (sp if batched else call)(sample)
             im, tm = out["input_sampling_mask"], out["target_sampling_mask"]
+            for need_ in ("input_" + kkey, "target_" + kkey):
+                if need_ not in out:
+                    raise KeyError(f"forward (kspace_key={kkey!r}) did not write {need_!r}; keys: {sorted(map(str, out))}")
             ik, tk = out["input_" + kkey], out["target_" + kkey]
             if not batched:
                 im, tm, ik, tk = im[None], tm[None], ik[None], tk[None]
@@ -1348,8 +1378,9 @@ def _check_history(case, res):
                 continue          # the fresh object fails on its own: reported by the line above / the single-call cases
             if fr["input"] != pr["input"] or fr["target"] != pr["target"]:
                 yield (f"{kind}-split-depends-on-call-history",
-                       f"{where}: the split differs from the one a fresh object computes for the same sample "
-                       f"(state carried between calls: {res.get('state_changed') or 'not visible in the object'})")
+                       f"{where}: the split differs from the one a fresh object computes for the same sample on its own"
+                       + (f" (batched call of {pc['B']} samples)" if pc["B"] > 1 else "")
+                       + f" — state that changed between calls: {res.get('state_changed') or 'none visible in the objects'}")
 
 
 def _hist_protocol(case, res):
